@@ -45,7 +45,8 @@ Record mixin := Mixin { m_servers : list server; m_current : option server }.
 Inductive mev :=
 | MStore (host policy : str)            (* IrcNetwork.addStsPolicy *)
 | MDisc (now : Z) (host : str)          (* IrcNetwork.addDisconnection at clock now *)
-| MNext (now : Z).                      (* ServersMixin._getNextServer() at clock now *)
+| MNext (now : Z)                       (* ServersMixin._getNextServer() at clock now *)
+| MRestart.                             (* the process restarts: networks.conf is written and read back (the store survives), a new ServersMixin *)
 
 Definition getNextServer (conf : list server) (now : Z) (n : netstore) (m : mixin) : netstore * mixin * res server :=
   let servers := match m_servers m with [] => conf | l => l end in
@@ -65,6 +66,7 @@ Definition mstep (conf : list server) (nm : netstore * mixin) (e : mev) : netsto
   | MStore h p => (addStsPolicy n h p, m, None)
   | MDisc now h => (onDisconnect now n h, m, None)
   | MNext now => let '(n', m', r) := getNextServer conf now n m in (n', m', Some r)
+  | MRestart => (n, Mixin [] None, None)
   end.
 
 (* a history: the log records, for every _getNextServer call, the clock, the store as the call found it, and the result *)
@@ -100,6 +102,7 @@ Definition gMev (v : value) : mev :=
   match gN (nth_v 0 v) with
   | 0 => MStore (gS (nth_v 1 v)) (gS (nth_v 2 v))
   | 1 => MDisc (gZ (nth_v 1 v)) (gS (nth_v 2 v))
+  | 3 => MRestart
   | _ => MNext (gZ (nth_v 1 v))
   end.
 
